@@ -180,8 +180,19 @@ pub fn match_bed_and_breakfast(
         return Ok(results);
     }
 
-    // Track cumulative ratio effect from splits/unsplits between sell and potential buys
+    // Track cumulative ratio effect from splits/unsplits between sell and potential buys.
+    // As in the main loop, a split takes effect at the end of its day, after that day's
+    // trades, wherever its line sits: the sale day's own splits count from the start,
+    // and a later day's splits are held back until the look-ahead leaves that day.
     let mut cumulative_ratio_effect = Decimal::ONE;
+    for tx in all_transactions
+        .iter()
+        .filter(|tx| tx.date == sell_tx.date && tx.ticker == sell_tx.ticker)
+    {
+        apply_split_ratio_effect(&mut cumulative_ratio_effect, tx);
+    }
+    let mut pending_ratio_effect = Decimal::ONE;
+    let mut pending_date = sell_tx.date;
 
     // Find transactions after sell date, within B&B window, for same ticker
     for (idx, tx) in all_transactions.iter().enumerate().skip(sell_idx + 1) {
@@ -206,9 +217,15 @@ pub fn match_bed_and_breakfast(
             break;
         }
 
+        if tx.date != pending_date {
+            cumulative_ratio_effect *= pending_ratio_effect;
+            pending_ratio_effect = Decimal::ONE;
+            pending_date = tx.date;
+        }
+
         match &tx.operation {
             Operation::Split { .. } | Operation::Unsplit { .. } => {
-                apply_split_ratio_effect(&mut cumulative_ratio_effect, tx);
+                apply_split_ratio_effect(&mut pending_ratio_effect, tx);
             }
             Operation::Buy {
                 amount,
